@@ -254,7 +254,7 @@ fn c05_t_spsc_recv_batch_vs_send() {
 /// recv_timeout: the result is never Disconnected while v is undelivered.
 #[kani::proof]
 #[kani::unwind(4)]
-fn c04_t_spsc_recv_timeout_vs_send_then_drop() {
+fn c04_x_spsc_recv_timeout_vs_send_then_drop() {
   setup!(1, 0, tx, rx);
   sched::install(a_send7_then_drop, 1, 1);
   let r = rx.as_mut().unwrap().recv_timeout(Duration::from_nanos(5));
